@@ -131,8 +131,10 @@ def const_case(ctx, p, idx, combo, traces, corrupt=None):
         events[k] = dict(events[k], a=events[k]["a"] + 1)
     got = dict(zip(ginputs, grads))
     # (i) forward values
-    with H.quiet(), torch.no_grad():
-        ys2 = torchsde.sdeint(sde, y0, ts, bm=bm, method=method, dt=D * TICK)
+    # the reference sdeint runs as a user would call it - autograd recording - on even cases and under no_grad on odd
+    # ones (the forward pass of sdeint_adjoint itself runs without recording): the values must be the same either way
+    with H.quiet(), (torch.no_grad() if idx % 2 else torch.enable_grad()):
+        ys2 = torchsde.sdeint(sde, y0, ts, bm=bm, method=method, dt=D * TICK).detach()
     if not torch.equal(ys.detach(), ys2):
         H.violation_once(ctx, dict(key, clause="forward_equal"),
                          f"sdeint_adjoint outputs differ from sdeint outputs (max diff {float((ys.detach() - ys2).abs().max()):.3e}); "
@@ -210,8 +212,10 @@ def lintime_case(ctx, p, idx, combo, traces, corrupt=None):
                          f"accepted configuration raised {type(e).__name__}: {str(e)[:200]} (D={D}, ts={tst})",
                          replay=dict(scn=s, combo=combo, seed=ctx.seed, idx=idx))
         return
-    with H.quiet(), torch.no_grad():
-        ys2 = torchsde.sdeint(sde, y0, ts, bm=bm, method=method, dt=D * TICK)
+    # the reference sdeint runs as a user would call it - autograd recording - on even cases and under no_grad on odd
+    # ones (the forward pass of sdeint_adjoint itself runs without recording): the values must be the same either way
+    with H.quiet(), (torch.no_grad() if idx % 2 else torch.enable_grad()):
+        ys2 = torchsde.sdeint(sde, y0, ts, bm=bm, method=method, dt=D * TICK).detach()
     if not torch.equal(ys.detach(), ys2):
         H.violation_once(ctx, dict(key, clause="forward_equal"),
                          f"sdeint_adjoint outputs differ from sdeint outputs; D={D} ts={tst}",
@@ -274,8 +278,10 @@ def smooth_forward_case(ctx, combo, idx, lay, bmkind, traces):
         H.violation_once(ctx, dict(key, clause="accepted_runs"),
                          f"accepted configuration raised {type(e).__name__}: {str(e)[:200]} (D={D}, ts={tst})")
         return
-    with H.quiet(), torch.no_grad():
-        ys2 = torchsde.sdeint(sde, y0, ts, bm=bm, method=method, dt=D * TICK)
+    # the reference sdeint runs as a user would call it - autograd recording - on even cases and under no_grad on odd
+    # ones (the forward pass of sdeint_adjoint itself runs without recording): the values must be the same either way
+    with H.quiet(), (torch.no_grad() if idx % 2 else torch.enable_grad()):
+        ys2 = torchsde.sdeint(sde, y0, ts, bm=bm, method=method, dt=D * TICK).detach()
     if not torch.equal(ys.detach(), ys2):
         H.violation_once(ctx, dict(key, clause="forward_equal"),
                          f"sdeint_adjoint outputs differ from sdeint outputs (max diff {float((ys.detach() - ys2).abs().max()):.3e}); "
